@@ -12,6 +12,13 @@ def fuzz(name, target, fuzztime, workers=8, timeout=None):
     return {"name": name, "kind": "fuzz", "target": target, "thorough": t}
 
 PROPS = {
+    "C02": {
+        "level": "exploration",
+        "jobs": [
+            rapid("create", "^TestC02$", {"checks": 30, "shards": 8, "timeout": 900, "shrinktime": "30s"},
+                  {"checks": 700, "shards": 14, "timeout": 5000, "shrinktime": "120s"}),
+        ],
+    },
     "C03": {
         "level": "exploration",
         "jobs": [
